@@ -324,7 +324,7 @@ Lemma last_text_snoc t h e :
 Proof.
   induction h as [|a h IH]; cbn [app last_text].
   - reflexivity.
-  - rewrite IH. destruct e as [tag o x| | | |]; try reflexivity.
+  - rewrite IH. destruct e as [tag o x| | | | |]; try reflexivity.
     destruct (String.eqb tag t); reflexivity.
 Qed.
 
@@ -337,7 +337,7 @@ Lemma last_obj_snoc t h e :
 Proof.
   induction h as [|a h IH]; cbn [app last_obj].
   - reflexivity.
-  - rewrite IH. destruct e as [tag o x| | | |]; try reflexivity.
+  - rewrite IH. destruct e as [tag o x| | | | |]; try reflexivity.
     destruct (String.eqb tag t); reflexivity.
 Qed.
 
@@ -369,7 +369,7 @@ Qed.
 Lemma inv_step h y e : wf_event e -> Inv h y -> Inv (h ++ [e]) (fst (step y e)).
 Proof.
   intros Hwf [Hnd Htx Hk1 Hk2].
-  destruct e as [tag obj text | | | now faults | ].
+  destruct e as [tag obj text | | | now faults | k0 v0 | ].
   - (* Update *)
     cbn [wf_event] in Hwf. cbn [step].
     destruct (String.eqb tag "NEWDASTARD") eqn:End.
@@ -413,6 +413,8 @@ Proof.
       apply keys_sset in H. destruct H as [->|H]; [now right|].
       apply keys_sset in H. destruct H as [->|H]; [now right|].
       now apply Hk2.
+  - (* InUse *)
+    cbn [step fst]. split; try assumption. intro t. rewrite last_text_snoc. apply Htx.
   - (* Restart *)
     cbn [step fst]. split; try assumption. intro t. rewrite last_text_snoc. apply Htx.
 Qed.
@@ -501,7 +503,7 @@ Lemma last_obj_none t h : last_text t h = None -> last_obj t h = None.
 Proof.
   induction h as [|a h IH]; cbn [last_text last_obj]; [reflexivity|].
   destruct (last_text t h); [discriminate|]. rewrite (IH eq_refl).
-  destruct a as [tag o x| | | |]; try reflexivity. destruct (String.eqb tag t); [discriminate | reflexivity].
+  destruct a as [tag o x| | | | |]; try reflexivity. destruct (String.eqb tag t); [discriminate | reflexivity].
 Qed.
 
 Lemma last_pair t h x :
@@ -511,7 +513,7 @@ Proof.
   destruct (last_text t h) as [x'|] eqn:E.
   - intro H; inversion H; subst x'. destruct (IH eq_refl) as (o & Ho & Hin).
     exists o. rewrite Ho. split; [reflexivity | now right].
-  - rewrite (last_obj_none _ _ E). destruct a as [tag o x0| | | |]; try discriminate.
+  - rewrite (last_obj_none _ _ E). destruct a as [tag o x0| | | | |]; try discriminate.
     destruct (String.eqb tag t) eqn:Et; [|discriminate].
     apply String.eqb_eq in Et; subst tag. intro H; inversion H; subst x0.
     exists o. split; [reflexivity | now left].
@@ -594,7 +596,7 @@ Lemma inv2_step cfg h y e :
   wf_event e -> consistent (h ++ [e]) -> Inv h y -> Inv2 cfg h y -> Inv2 cfg (h ++ [e]) (fst (step y e)).
 Proof.
   intros Hwf Hcons [Hnd Htx Hk1 Hk2] [Hob Hov Hk3 Hcfg].
-  destruct e as [tag obj text | | | now faults | ].
+  destruct e as [tag obj text | | | now faults | k0 v0 | ].
   - cbn [wf_event] in Hwf. cbn [step].
     destruct (String.eqb tag "NEWDASTARD") eqn:End.
     + apply String.eqb_eq in End; subst tag. cbn [fst]. split; try assumption.
@@ -648,6 +650,9 @@ Proof.
       apply keys_sset in Ht. destruct Ht as [->|Ht]; [apply in_or_app; right; cbn; tauto|].
       apply keys_sset in Ht. destruct Ht as [->|Ht]; [apply in_or_app; right; cbn; tauto|].
       now apply Hk3.
+  - cbn [step fst]. split; try assumption.
+    + intros t Ht. rewrite last_obj_snoc. now apply Hob.
+    + intros t Ht. rewrite updated_tags_snoc, app_nil_r. now apply Hk3.
   - cbn [step fst]. split; try assumption.
     + intros t Ht. rewrite last_obj_snoc. now apply Hob.
     + intros t Ht. rewrite updated_tags_snoc, app_nil_r. now apply Hk3.
@@ -778,7 +783,7 @@ Qed.
 Lemma last_text_updated t h x : last_text t h = Some x -> In t (updated_tags h).
 Proof.
   induction h as [|a h IH]; cbn [last_text updated_tags]; [discriminate|].
-  destruct a as [tag o x0| | | |]; cbn [In];
+  destruct a as [tag o x0| | | | |]; cbn [In];
     destruct (last_text t h) eqn:E; intro H; try discriminate; try (now apply IH).
   - right. now apply IH.
   - destruct (String.eqb tag t) eqn:Et; [|discriminate]. apply String.eqb_eq in Et. now left.
@@ -787,7 +792,7 @@ Qed.
 Lemma last_obj_updated t h x : last_obj t h = Some x -> In t (updated_tags h).
 Proof.
   induction h as [|a h IH]; cbn [last_obj updated_tags]; [discriminate|].
-  destruct a as [tag o x0| | | |]; cbn [In];
+  destruct a as [tag o x0| | | | |]; cbn [In];
     destruct (last_obj t h) eqn:E; intro H; try discriminate; try (now apply IH).
   - right. now apply IH.
   - destruct (String.eqb tag t) eqn:Et; [|discriminate]. apply String.eqb_eq in Et. now left.
@@ -835,10 +840,21 @@ Qed.
 
 Lemma restored_check_sound before l : restored_check before l = true -> restored_spec before l.
 Proof.
-  unfold restored_check, restored_spec. intros H Hcur t o Hp Hr Hl.
-  rewrite Hcur in H. cbn [negb orb] in H. rewrite forallb_forall in H.
-  specialize (H t (last_obj_updated _ _ _ Hl)). rewrite Hp, Hr in H. cbn [andb negb orb] in H.
-  apply opt_str_eqb_eq in H. now rewrite H.
+  unfold restored_check, restored_spec. intros H Hcur.
+  rewrite Hcur in H. cbn [negb orb] in H. apply andb_true_iff in H as [H1 H2].
+  rewrite forallb_forall in H1, H2. split.
+  - intros t o Hp Hr Hl.
+    specialize (H1 t (last_obj_updated _ _ _ Hl)). rewrite Hp, Hr in H1. cbn [andb negb orb] in H1.
+    apply opt_str_eqb_eq in H1. now rewrite H1.
+  - intros k v Hin. specialize (H2 _ Hin). cbn [fst snd] in H2. now apply opt_str_eqb_eq in H2.
+Qed.
+
+Lemma kept_check_sound cfg0 before cfg : kept_check cfg0 before cfg = true -> kept_spec cfg0 before cfg.
+Proof.
+  unfold kept_check, kept_spec. rewrite forallb_forall. intros H k v Hin Hno.
+  specialize (H _ Hin). cbn [fst snd] in H. apply orb_true_iff in H as [H | H].
+  - apply existsb_exists in H as (t & Ht & Htouch). rewrite (Hno t Ht) in Htouch. discriminate.
+  - now apply opt_str_eqb_eq in H.
 Qed.
 
 Lemma wait_check_sound before b : wait_check before b = true -> wait_spec before b.
@@ -847,8 +863,8 @@ Proof.
 Qed.
 
 (* what an accepted history means, position by position *)
-Lemma check_from_at pre0 pre e o post :
-  check_from pre0 (pre ++ (e, o) :: post) = true -> check_one (pre0 ++ map fst pre) e o = true.
+Lemma check_from_at cfg0 pre0 pre e o post :
+  check_from cfg0 pre0 (pre ++ (e, o) :: post) = true -> check_one cfg0 (pre0 ++ map fst pre) e o = true.
 Proof.
   revert pre0. induction pre as [|[e0 o0] pre IH]; intros pre0; cbn [app check_from map fst].
   - rewrite app_nil_r. intro H. now apply andb_true_iff in H as [H _].
@@ -856,8 +872,8 @@ Proof.
     now rewrite <- app_assoc in IH.
 Qed.
 
-Lemma checker_accepts_means pre e o post :
-  C16_check (pre ++ (e, o) :: post) = true ->
+Lemma checker_accepts_means cfg0 pre e o post :
+  C16_check cfg0 (pre ++ (e, o) :: post) = true ->
   match e, o with
   | SendAll, Published l => sendall_spec (map fst pre) l
   | SaveTick _ faults, Saved trace reads =>
@@ -865,7 +881,8 @@ Lemma checker_accepts_means pre e o post :
       | Some w => crash_spec reads w /\
                   (forallb negb faults = true ->
                    length trace = 6%nat /\
-                   exists cfg, last reads None = Some cfg /\ saved_spec (map fst pre) cfg)
+                   exists cfg, last reads None = Some cfg /\ saved_spec (map fst pre) cfg /\
+                               kept_spec cfg0 (map fst pre) cfg)
       | None => forallb negb faults = false
       end
   | Restart, Restored l => restored_spec (map fst pre) l
@@ -873,8 +890,8 @@ Lemma checker_accepts_means pre e o post :
   | _, _ => True
   end.
 Proof.
-  intro H. apply (check_from_at [] pre e o post) in H. cbn [app] in H.
-  destruct e as [tag ob x| | |now faults|], o as [l|b|tr reads|l]; try exact I.
+  intro H. apply (check_from_at cfg0 [] pre e o post) in H. cbn [app] in H.
+  destruct e as [tag ob x| | |now faults|k0 v0|], o as [l|b|tr reads|l]; try exact I.
   - cbn [check_one] in H. now apply sendall_check_sound.
   - cbn [check_one] in H. now apply wait_check_sound.
   - cbn [check_one] in H. destruct (written_of tr) as [w|].
@@ -883,7 +900,8 @@ Proof.
       unfold completed in Hcomp. apply andb_true_iff in Hcomp as [_ Hlen]. apply Nat.eqb_eq in Hlen.
       split; [exact Hlen|].
       destruct (last reads None) as [cfg|]; [|discriminate].
-      exists cfg. split; [reflexivity | now apply saved_check_sound].
+      apply andb_true_iff in Hs as [Hs Hk].
+      exists cfg. split; [reflexivity | split; [now apply saved_check_sound | now apply kept_check_sound]].
     + apply andb_true_iff in H as [Hnf _]. now apply negb_true_iff in Hnf.
   - cbn [check_one] in H. now apply restored_check_sound.
 Qed.
@@ -957,7 +975,7 @@ Proof.
   pose proof (inv_run cfg d h Hh) as [Hnd Htx Hk1 Hk2].
   rewrite run_snoc. rewrite due_scan_snoc in Hdue. cbn [app] in Hdue.
   set (y := fst (run (init_sys cfg d) h)) in *.
-  destruct e as [tag obj text | | | now faults | ].
+  destruct e as [tag obj text | | | now faults | k0 v0 | ].
   - cbn [step].
     destruct (String.eqb tag "NEWDASTARD") eqn:End.
     + cbn [fst]. apply orb_true_iff in Hdue as [Hd | Hp]; [now apply IH|].
@@ -975,6 +993,7 @@ Proof.
   - cbn [step fst]. now apply IH.
   - cbn [step fst]. now apply IH.
   - discriminate.
+  - cbn [step fst]. now apply IH.
   - cbn [step fst]. now apply IH.
 Qed.
 
@@ -1013,4 +1032,96 @@ Proof.
   unfold restorable_topic in Hr.
   etransitivity; [exact (slookup_filter (fun k => mem_str k restorable_keys) saved (to_lower t) Hr)|].
   now apply Hspec.
+Qed.
+
+(* ---- keys read at start-up and not written in this run keep their value in the saved file ---- *)
+Lemma viper_set_all_keys (o : list (string * value)) : forall over k,
+  In k (keys (viper_set_all o over)) ->
+  In k (keys over) \/ exists t, In t (keys o) /\ to_lower t = k /\ nosave t = false.
+Proof.
+  unfold viper_set_all. induction o as [|[t0 v0] r IH]; intros over k H; cbn [fold_left fst snd] in H.
+  - now left.
+  - apply IH in H. destruct H as [H | (t & Ht & Hl & Hn)].
+    + destruct (nosave t0) eqn:E; [now left|].
+      apply keys_sset in H. destruct H as [-> | H]; [|now left].
+      right. exists t0. repeat split; [now left | exact E].
+    + right. exists t. repeat split; [now right | exact Hl | exact Hn].
+Qed.
+
+Definition Inv3 (h : list event) (y : sys) : Prop :=
+  forall k, In k (keys (v_over y)) ->
+            exists t, In t (updated_tags h ++ injected) /\ to_lower t = k /\ nosave t = false.
+
+Lemma inv3_mono h e y : Inv3 h y -> Inv3 (h ++ [e]) y.
+Proof.
+  intros H k Hk. destruct (H k Hk) as (t & Ht & Hl & Hn). exists t. repeat split; auto.
+  rewrite updated_tags_snoc. apply in_app_or in Ht. apply in_or_app.
+  destruct Ht; [left; apply in_or_app; now left | now right].
+Qed.
+
+Lemma inv3_run cfg d h :
+  Forall wf_event h -> consistent h -> Inv3 h (fst (run (init_sys cfg d) h)).
+Proof.
+  induction h as [|e h IH] using rev_ind; intros Hwf Hcons.
+  - cbn [run fst]. intros k [].
+  - apply Forall_app in Hwf as [Hh He].
+    pose proof (IH Hh (consistent_prefix _ _ Hcons)) as H3.
+    pose proof (inv2_run cfg d h Hh (consistent_prefix _ _ Hcons)) as [_ _ Hk3 _].
+    rewrite run_snoc. set (y := fst (run (init_sys cfg d) h)) in *.
+    destruct e as [tag obj text | | | now faults | k0 v0 | ].
+    + cbn [step]. destruct (String.eqb tag "NEWDASTARD"); [now apply inv3_mono|].
+      destruct (text_of y tag =? text); cbn [negb fst]; [now apply inv3_mono|].
+      apply (inv3_mono h (Update tag obj text)) in H3. exact H3.
+    + cbn [step fst]. now apply inv3_mono.
+    + cbn [step fst]. now apply inv3_mono.
+    + cbn [step save_state fst v_over]. intros k Hk. cbn [v_over] in Hk.
+      apply viper_set_all_keys in Hk. destruct Hk as [Hk | (t & Ht & Hl & Hn)].
+      * now apply (inv3_mono h (SaveTick now faults) y H3).
+      * exists t. repeat split; auto. rewrite updated_tags_snoc, app_nil_r.
+        unfold inject in Ht.
+        apply keys_sset in Ht. destruct Ht as [->|Ht]; [apply in_or_app; right; cbn; tauto|].
+        apply keys_sset in Ht. destruct Ht as [->|Ht]; [apply in_or_app; right; cbn; tauto|].
+        apply keys_sset in Ht. destruct Ht as [->|Ht]; [apply in_or_app; right; cbn; tauto|].
+        now apply Hk3.
+    + cbn [step fst]. now apply inv3_mono.
+    + cbn [step fst]. now apply inv3_mono.
+Qed.
+
+Lemma in_nodup_slookup (m : config) k v : NoDup (keys m) -> In (k, v) m -> slookup k m = Some v.
+Proof.
+  unfold slookup, keys. induction m as [|[k0 v0] r IH]; intros Hnd Hin; [destruct Hin|].
+  inversion Hnd as [|? ? Hn Hr]; subst. cbn [lookup]. destruct Hin as [Heq | Hin].
+  - inversion Heq; subst. now rewrite String.eqb_refl.
+  - destruct (String.eqb k k0) eqn:E; [|now apply IH].
+    apply String.eqb_eq in E; subst k0. exfalso. apply Hn. apply in_map_iff. exists (k, v). auto.
+Qed.
+
+Lemma touches_false t k : touches t k = false -> to_lower t <> k \/ nosave t = true.
+Proof.
+  unfold touches. rewrite <- nosave_is_volatile. intro H. apply andb_false_iff in H as [H | H].
+  - left. intro E. subst. rewrite String.eqb_refl in H. discriminate.
+  - right. now apply negb_false_iff in H.
+Qed.
+
+Lemma saved_keeps cfg d h now :
+  Forall wf_event h -> consistent h -> case_distinct h -> NoDup (keys cfg) ->
+  let y := fst (run (init_sys cfg d) h) in
+  let y' := fst (step y (SaveTick now [])) in
+  exists saved, snd (startup (disk y')) = Some saved /\ kept_spec cfg h saved.
+Proof.
+  intros Hwf Hcons Hdist Hnd y y'.
+  destruct (saved_latest cfg d h now Hwf Hcons Hdist) as (saved & Hst & _ & Hother).
+  exists saved. split; [exact Hst|].
+  intros k v Hin Hno.
+  pose proof (inv2_run cfg d h Hwf Hcons) as [_ Hov _ Hcfg].
+  pose proof (inv3_run cfg d h Hwf Hcons) as H3.
+  fold y in Hov, Hcfg, H3.
+  rewrite Hother.
+  - unfold all_settings. rewrite (overlay_lookup (v_over y) _ _ Hov).
+    destruct (slookup k (v_over y)) eqn:E.
+    + exfalso. assert (Hk : In k (keys (v_over y))) by (apply slookup_in; rewrite E; discriminate).
+      destruct (H3 k Hk) as (t & Ht & Hl & Hn).
+      destruct (touches_false t k (Hno t Ht)) as [H | H]; congruence.
+    + fold y. rewrite Hcfg. rewrite (overlay_lookup cfg _ _ Hnd). now rewrite (in_nodup_slookup cfg k v Hnd Hin).
+  - intros t Ht. apply touches_false. now apply Hno.
 Qed.
